@@ -6,4 +6,4 @@ set -u
 cd "$(dirname "$0")"
 . ./env.sh
 [ -x bin/ibcheck ] || ./setup.sh >/dev/null 2>&1 || { echo "setup failed"; exit 2; }
-exec bin/ibcheck -prop "$1" -tier "${2:-quick}" -repo "${VERIF_REPO:-/repo}" -verif "$(pwd)"
+exec bin/ibcheck -prop "$1" -tier "${2:-${VERIF_TIER:-quick}}" -repo "${VERIF_REPO:-/repo}" -verif "$(pwd)"
